@@ -1,20 +1,42 @@
 package c16
 
 // Library calls made while the seeds are loaded and the plan is built (Setup
-// of every worker, start of every probe process) run on real inputs: the
-// repo's own parameter sets and slices and the well-formed contexts drawn
-// from the reference serializers. A panic there is a C16 violation like any
-// other (a parser crashed on bytes), not a harness failure: it is recovered,
-// recorded once per key together with the input (and the parameter sets it
-// was parsed against, so that the witness replays), the call counts as
-// "rejected by the library", and plan construction goes on. The recorded
-// violations are the same in every worker (setup does not depend on the shard
-// or on VERIF_SEED); case 0 reports them.
+// of every worker, start of every probe process, ParentInit) run on real
+// inputs: the repo's own parameter sets and slices and the well-formed
+// contexts drawn from the reference serializers. A crash, a hang or an
+// allocation blow-up there is a C16 violation like any other (a parser failed
+// on bytes), not a harness failure.
+//
+// Every such call is therefore vetted before it runs in-process: it is sent
+// (operation, input, the parameter-set maps it is parsed against, as bytes) to
+// a "bare" probe process - the probe of probe.go started without seeds - which
+// executes it under the same monitor goroutine as the calls of the cases
+// (8 MiB + 1024*len allocated, 2 s + 20 us*len CPU, a CPU exceedance
+// reproduced in a fresh process; after a hang key is confirmed, calls found at
+// 30 ms CPU inside the same function are presumed repeats). A call that trips
+// a bound or kills the bare probe is never run in-process: it is recorded once
+// per key together with the input and the parameter sets (so that the witness
+// replays), the unit counts as "rejected by the library", and plan
+// construction goes on. A call that comes back is then run in-process under a
+// recover wrapper (its result is needed to build the maps); a panic is
+// recorded the same way.
+//
+// The parent does this once (ParentInit runs the whole plan construction),
+// writes the verdicts to a file under its scratch directory and names it in
+// C16_SETUP_VETTED; workers and probes find every call of their own setup in
+// that file, so all of them build the same plan and none of them runs a call
+// that was found to hang. A process that does not find a call in the file
+// (replay: there is no ParentInit) vets it itself. Case 0 reports the
+// recorded violations.
 
 import (
 	"encoding/hex"
+	"encoding/json"
 	"fmt"
+	"os"
+	"path/filepath"
 	"sort"
+	"strings"
 
 	"github.com/Eyevinn/mp4ff/avc"
 	"github.com/Eyevinn/mp4ff/hevc"
@@ -30,17 +52,369 @@ type setupViolation struct {
 
 var (
 	setupViol     = map[string]*setupViolation{}
-	setupGuardN   int // guarded library calls made during setup
-	setupPanicN   int // of which panicked
+	setupGuardN   int // library calls made during setup
+	setupPanicN   int // of which panicked in-process
 	setupRecorder = &localSink{}
+	setupVerdictN = map[string]int{} // verdict class -> calls
+	setupIncon    []string           // what could not be decided (reported by case 0 as inconclusive)
 )
 
-// libCall runs one library call of setup/plan building under a recover
-// wrapper. op names the entry point, in is the NAL unit handed to it, base
-// the parameter sets (SPS, PPS) it was parsed against (nil for parameter sets
-// themselves). It reports whether the call returned normally.
-func libCall(op, codec string, in []byte, base [][]byte, f func()) bool {
+// ---------------------------------------------------------------------------
+// description of a call (what the bare probe needs to repeat it)
+
+// psRef: one parameter set of a map, with the ids under which it is entered.
+type psRef struct {
+	IDs []uint32 `json:"ids"`
+	B   []byte   `json:"b"`
+	SPS []psRef  `json:"sps,omitempty"` // PPS: the SPS map it was parsed against
+}
+
+type setupCall struct {
+	Op    string  `json:"op"`
+	Codec string  `json:"codec"`
+	In    []byte  `json:"in"`
+	SPS   []psRef `json:"sps,omitempty"`
+	PPS   []psRef `json:"pps,omitempty"`
+}
+
+func (sc *setupCall) hash() uint64 {
+	b, _ := json.Marshal(sc)
+	return runner.Hash64(b)
+}
+
+// psOrigin: the bytes a parsed parameter set came from (every set in the maps
+// of setup was returned by one of the setup* functions below).
+type psOrigin struct {
+	b   []byte
+	sps []psRef
+}
+
+var psOrigins = map[interface{}]*psOrigin{}
+
+// describeMap turns a map of parsed parameter sets (given as its ids and a
+// lookup) into its byte description (ok false: a value of unknown origin, the
+// call cannot be repeated elsewhere).
+func describeMap(ids []uint32, get func(id uint32) interface{}) (refs []psRef, ok bool) {
+	byPtr := map[interface{}]int{}
+	sort.Slice(ids, func(i, j int) bool { return ids[i] < ids[j] })
+	for _, id := range ids {
+		p := get(id)
+		k, seen := byPtr[p]
+		if !seen {
+			o := psOrigins[p]
+			if o == nil {
+				return nil, false
+			}
+			k = len(refs)
+			byPtr[p] = k
+			refs = append(refs, psRef{B: o.b, SPS: o.sps})
+		}
+		refs[k].IDs = append(refs[k].IDs, id)
+	}
+	return refs, true
+}
+
+func describeAVCSPS(m map[uint32]*avc.SPS) ([]psRef, bool) {
+	ids := make([]uint32, 0, len(m))
+	for id := range m {
+		ids = append(ids, id)
+	}
+	return describeMap(ids, func(id uint32) interface{} { return m[id] })
+}
+
+func describeAVCPPS(m map[uint32]*avc.PPS) ([]psRef, bool) {
+	ids := make([]uint32, 0, len(m))
+	for id := range m {
+		ids = append(ids, id)
+	}
+	return describeMap(ids, func(id uint32) interface{} { return m[id] })
+}
+
+func describeHEVCSPS(m map[uint32]*hevc.SPS) ([]psRef, bool) {
+	ids := make([]uint32, 0, len(m))
+	for id := range m {
+		ids = append(ids, id)
+	}
+	return describeMap(ids, func(id uint32) interface{} { return m[id] })
+}
+
+func describeHEVCPPS(m map[uint32]*hevc.PPS) ([]psRef, bool) {
+	ids := make([]uint32, 0, len(m))
+	for id := range m {
+		ids = append(ids, id)
+	}
+	return describeMap(ids, func(id uint32) interface{} { return m[id] })
+}
+
+// ---------------------------------------------------------------------------
+// verdicts
+
+type vetVerdict struct {
+	Hash  uint64   `json:"hash"`
+	Class string   `json:"class"` // ok | ok-alloc | cpu | alloc | fatal | cpu-presumed | cpu-unconfirmed | unvetted
+	Key   string   `json:"key,omitempty"`
+	What  string   `json:"what,omitempty"`
+	W     *witness `json:"witness,omitempty"`
+}
+
+type vetFile struct {
+	OK  []uint64      `json:"ok"`
+	Bad []*vetVerdict `json:"bad"`
+}
+
+var (
+	vetCache   map[uint64]*vetVerdict
+	vetFresh   int // verdicts obtained by this process (not found in the file)
+	vetProbe   *probeProc
+	vetDir     string // where the bare probe's status file lives
+	vetRepo    string
+	vetTier    string
+	vetOff     bool // no vetting (go test binaries cannot be started as probes)
+	vetSpawned int
+	okVerdict  = &vetVerdict{Class: "ok"}
+)
+
+const vetEnv = "C16_SETUP_VETTED"
+
+// vetInit is called before the first library call of setup.
+func vetInit(scratch, repo, tier string) {
+	vetDir, vetRepo, vetTier = scratch, repo, tier
+	vetOff = strings.HasSuffix(os.Args[0], ".test") || os.Getenv("C16_NO_VET") != ""
+	if vetCache != nil {
+		return
+	}
+	vetCache = map[uint64]*vetVerdict{}
+	p := os.Getenv(vetEnv)
+	if p == "" {
+		return
+	}
+	b, err := os.ReadFile(p)
+	if err != nil {
+		return
+	}
+	var vf vetFile
+	if json.Unmarshal(b, &vf) != nil {
+		return
+	}
+	for _, h := range vf.OK {
+		vetCache[h] = okVerdict
+	}
+	for _, v := range vf.Bad {
+		vetCache[v.Hash] = v
+		if v.Class == "cpu" {
+			knownHangs[v.Key] = true // later calls found inside the same function are presumed repeats
+		}
+	}
+}
+
+// vetPublish writes the verdicts of this process to a file and names it in the
+// environment of the processes started from here on.
+func vetPublish(dir string) {
+	vetStop()
+	if vetFresh == 0 || dir == "" {
+		return
+	}
+	var vf vetFile
+	for h, v := range vetCache {
+		if v.Class == "ok" {
+			vf.OK = append(vf.OK, h)
+		} else if v.Class != "unvetted" {
+			vf.Bad = append(vf.Bad, v)
+		}
+	}
+	sort.Slice(vf.OK, func(i, j int) bool { return vf.OK[i] < vf.OK[j] })
+	sort.Slice(vf.Bad, func(i, j int) bool { return vf.Bad[i].Hash < vf.Bad[j].Hash })
+	b, err := json.Marshal(&vf)
+	if err != nil {
+		return
+	}
+	p := filepath.Join(dir, fmt.Sprintf("setup-vetted.%d.json", os.Getpid()))
+	if os.WriteFile(p, b, 0o644) == nil {
+		os.Setenv(vetEnv, p)
+	}
+}
+
+func vetStop() {
+	if vetProbe != nil {
+		vetProbe.stop()
+		vetProbe = nil
+	}
+}
+
+func vetStart() *probeProc {
+	if vetDir == "" {
+		d, err := os.MkdirTemp("", "verif-C16-vet-")
+		if err != nil {
+			return nil
+		}
+		vetDir = d
+	}
+	p, err := startProbeIn(vetDir, fmt.Sprintf("vet.%d.status", os.Getpid()), vetRepo, vetTier, true)
+	if err != nil {
+		return nil
+	}
+	vetSpawned++
+	return p
+}
+
+// vetCall returns the verdict on one call of setup.
+func vetCall(sc *setupCall, base [][]byte) *vetVerdict {
+	h := sc.hash()
+	if v, ok := vetCache[h]; ok {
+		return v
+	}
+	v := &vetVerdict{Class: "unvetted"}
+	if !vetOff {
+		v = scoutVerdict(sc, base)
+	}
+	if v != okVerdict {
+		v.Hash = h
+	}
+	vetCache[h] = v
+	vetFresh++
+	return v
+}
+
+func knownHangList() []string {
+	l := make([]string, 0, len(knownHangs))
+	for k := range knownHangs {
+		l = append(l, k)
+	}
+	sort.Strings(l)
+	return l
+}
+
+// scoutVerdict runs the call in the bare probe.
+func scoutVerdict(sc *setupCall, base [][]byte) *vetVerdict {
+	w := &witness{Op: sc.Op, Input: hex.EncodeToString(sc.In), Mode: "all",
+		Case: fmt.Sprintf("setup: %s on a well-formed %s seed unit of %d bytes while the plan was built", sc.Op, sc.Codec, len(sc.In))}
+	if len(base) > 0 {
+		ch := &chainDetail{Codec: sc.Codec}
+		for _, b := range base {
+			ch.Base = append(ch.Base, hex.EncodeToString(b))
+		}
+		w.Chain, w.Mode = ch, "dependent"
+		w.Case += " (parsed against the parameter sets of its context, see chain.base_parameter_sets_hex)"
+	}
+	for attempt := 0; attempt < 3; attempt++ {
+		if vetProbe == nil {
+			if vetProbe = vetStart(); vetProbe == nil {
+				break
+			}
+		}
+		resp, died, err := vetProbe.roundTrip(&probeReq{Setup: sc, Known: knownHangList()})
+		if err != nil {
+			vetStop()
+			continue
+		}
+		if !died && resp.Trip == nil {
+			for _, pv := range resp.Viol {
+				if strings.HasSuffix(pv.Key, "/alloc") && pv.Detail != nil {
+					// the call came back, but had allocated more than the bound (between two readings of the monitor):
+					// a violation, and safe to run in-process
+					w.Alloc, w.Bound = pv.Detail.Alloc, pv.Detail.Bound
+					return &vetVerdict{Class: "ok-alloc", Key: pv.Key, W: w,
+						What: fmt.Sprintf("%s allocated %d bytes for %d input bytes (bound %d = 8 MiB + 1024*len) during plan construction (%s)", sc.Op, w.Alloc, len(sc.In), w.Bound, w.Case)}
+				}
+			}
+			return okVerdict // (a panic shows again in-process and is recorded there)
+		}
+		var t *trip
+		if died {
+			_ = vetProbe.cmd.Wait()
+			se := vetProbe.stderr.String()
+			_, op, _, _ := vetProbe.lastStatus()
+			vetProbe = nil
+			if strings.TrimSpace(se) == "" || op != sc.Op {
+				continue // killed from outside, or it did not get as far as the call: once more
+			}
+			fr, class := crashSite(se)
+			if f2 := loopFrame(dyingGoroutine(se)); f2 != "unknown" {
+				fr = f2
+			}
+			t = &trip{Class: "fatal:" + class, Op: op, Frame: fr, Stack: head(se, 4000), Len: len(sc.In)}
+		} else {
+			t = resp.Trip
+			vetStop()
+		}
+		w.Stack, w.Alloc, w.Bound = t.Stack, t.Alloc, t.Bound
+		switch {
+		case t.Class == "alloc":
+			return &vetVerdict{Class: "alloc", Key: "es/" + t.Frame + "/alloc", W: w,
+				What: fmt.Sprintf("%s had allocated %d bytes for %d input bytes when it was stopped (bound %d = 8 MiB + 1024*len), inside %s, during plan construction (%s)",
+					t.Op, t.Alloc, t.Len, t.Bound, t.Frame, w.Case)}
+		case t.Class == "cpu-presumed":
+			return &vetVerdict{Class: "cpu-presumed", Key: "es/" + t.Frame + "/cpu"}
+		case t.Class == "cpu":
+			key := "es/" + t.Frame + "/cpu"
+			confirmed := false
+			if p2 := vetStart(); p2 != nil {
+				r2, died2, _ := p2.roundTrip(&probeReq{Setup: sc, Confirm: true})
+				if !died2 && r2 != nil && r2.Trip != nil && r2.Trip.Class == "cpu" {
+					confirmed = true
+				}
+				p2.stop()
+			}
+			if !confirmed {
+				return &vetVerdict{Class: "cpu-unconfirmed", Key: key}
+			}
+			knownHangs[key] = true
+			return &vetVerdict{Class: "cpu", Key: key, W: w,
+				What: fmt.Sprintf("%s used more than 2 s + 20 us*len CPU (%d ms when stopped, %d input bytes) twice (fresh process each time), spinning inside %s, during plan construction (%s)",
+					t.Op, t.CPUms, t.Len, t.Frame, w.Case)}
+		case strings.HasPrefix(t.Class, "fatal:"):
+			cl := strings.TrimPrefix(t.Class, "fatal:")
+			return &vetVerdict{Class: "fatal", Key: "es/" + t.Frame + "/" + cl, W: w,
+				What: fmt.Sprintf("%s killed the process (%s) at %s during plan construction: %s (%s)", t.Op, cl, t.Frame, head(firstLine(t.Stack), 200), w.Case)}
+		}
+	}
+	return &vetVerdict{Class: "unvetted"}
+}
+
+// libCall makes one library call of setup/plan building: vetted in the bare
+// probe, then run in-process under a recover wrapper. sc describes the call
+// (nil maps of unknown origin: describable false, the call is not vetted),
+// base the parameter sets for the witness (nil: derived from sc). It reports
+// whether the call returned normally.
+func libCall(sc *setupCall, describable bool, base [][]byte, f func()) bool {
 	setupGuardN++
+	if base == nil {
+		// the distinct sets of the maps: the replay parses them first and makes each reachable under its own id
+		seen := map[string]bool{}
+		for _, l := range [][]psRef{sc.SPS, sc.PPS} {
+			for _, r := range l {
+				if !seen[string(r.B)] && len(base) < 48 {
+					seen[string(r.B)] = true
+					base = append(base, r.B)
+				}
+			}
+		}
+	}
+	v := &vetVerdict{Class: "unvetted"}
+	if describable {
+		if vetCache == nil {
+			vetInit("", "/repo", "quick")
+		}
+		v = vetCall(sc, base)
+	}
+	setupVerdictN[v.Class]++
+	switch v.Class {
+	case "ok", "unvetted":
+	case "ok-alloc":
+		if _, dup := setupViol[v.Key]; !dup {
+			setupViol[v.Key] = &setupViolation{key: v.Key, what: v.What, w: v.W}
+		}
+	case "cpu-presumed":
+		return false // a repeat of a recorded hang key: rejected, not reported again
+	case "cpu-unconfirmed":
+		setupIncon = append(setupIncon, "setup: cpu exceedance of "+sc.Op+" not reproduced in a fresh process")
+		return false
+	default:
+		if _, dup := setupViol[v.Key]; !dup {
+			setupViol[v.Key] = &setupViolation{key: v.Key, what: v.What, w: v.W}
+		}
+		return false
+	}
 	pi := setupRecorder.Guard(f)
 	if pi == nil {
 		return true
@@ -50,10 +424,10 @@ func libCall(op, codec string, in []byte, base [][]byte, f func()) bool {
 	if _, dup := setupViol[key]; dup {
 		return false
 	}
-	w := &witness{Op: op, Input: hex.EncodeToString(in), Mode: "all", Stack: head(pi.Stack, 3000),
-		Case: fmt.Sprintf("setup: %s on a well-formed %s seed unit of %d bytes while the plan was built", op, codec, len(in))}
+	w := &witness{Op: sc.Op, Input: hex.EncodeToString(sc.In), Mode: "all", Stack: head(pi.Stack, 3000),
+		Case: fmt.Sprintf("setup: %s on a well-formed %s seed unit of %d bytes while the plan was built", sc.Op, sc.Codec, len(sc.In))}
 	if len(base) > 0 {
-		ch := &chainDetail{Codec: codec}
+		ch := &chainDetail{Codec: sc.Codec}
 		for _, b := range base {
 			ch.Base = append(ch.Base, hex.EncodeToString(b))
 		}
@@ -61,7 +435,7 @@ func libCall(op, codec string, in []byte, base [][]byte, f func()) bool {
 		w.Case += " (parsed against the parameter sets of its context, see chain.base_parameter_sets_hex)"
 	}
 	setupViol[key] = &setupViolation{key: key, w: w,
-		what: fmt.Sprintf("%s panicked on %d input bytes during plan construction: %s (top frame %s; %s)", op, len(in), pi.Value, pi.TopFrame, w.Case)}
+		what: fmt.Sprintf("%s panicked on %d input bytes during plan construction: %s (top frame %s; %s)", sc.Op, len(sc.In), pi.Value, pi.TopFrame, w.Case)}
 	return false
 }
 
@@ -69,6 +443,10 @@ func libCall(op, codec string, in []byte, base [][]byte, f func()) bool {
 func reportSetupViolations(c *runner.Ctx) {
 	c.Count("setup_library_calls_guarded", int64(setupGuardN))
 	c.Count("setup_library_calls_panicked", int64(setupPanicN))
+	for cl, n := range setupVerdictN {
+		c.Count("setup_library_calls_by_verdict_of_the_bare_probe:"+cl, int64(n))
+	}
+	c.Count("setup_library_calls_vetted_by_this_worker_itself", int64(vetFresh))
 	keys := make([]string, 0, len(setupViol))
 	for k := range setupViol {
 		keys = append(keys, k)
@@ -78,50 +456,78 @@ func reportSetupViolations(c *runner.Ctx) {
 		v := setupViol[k]
 		c.Violation(v.key, v.what, v.w)
 		c.Seen("panicking_op", v.w.Op+" (setup)")
+		c.Seen("violation_key_by_generator", "setup "+v.key)
+	}
+	for _, s := range setupIncon {
+		c.Inconclusive(s)
 	}
 }
 
 // ---------------------------------------------------------------------------
-// guarded parsers used by setup (nil = rejected or panicked)
+// the parsers used by setup (nil = rejected, panicked, hung or blew up)
 
 func setupAVCSPS(u []byte) (sps *avc.SPS) {
-	libCall("avc.ParseSPSNALUnit", "avc", u, nil, func() {
+	sc := &setupCall{Op: "avc.ParseSPSNALUnit", Codec: "avc", In: u}
+	libCall(sc, true, nil, func() {
 		if v, err := avc.ParseSPSNALUnit(u, true); err == nil {
 			sps = v
 		}
 	})
+	if sps != nil {
+		psOrigins[sps] = &psOrigin{b: u}
+	}
 	return sps
 }
 
 func setupAVCPPS(u []byte, sm map[uint32]*avc.SPS) (pps *avc.PPS) {
-	libCall("avc.ParsePPSNALUnit", "avc", u, nil, func() {
+	sc := &setupCall{Op: "avc.ParsePPSNALUnit", Codec: "avc", In: u}
+	var ok bool
+	sc.SPS, ok = describeAVCSPS(sm)
+	libCall(sc, ok, nil, func() {
 		if v, err := avc.ParsePPSNALUnit(u, sm); err == nil {
 			pps = v
 		}
 	})
+	if pps != nil && ok {
+		psOrigins[pps] = &psOrigin{b: u, sps: sc.SPS}
+	}
 	return pps
 }
 
 func setupHEVCSPS(u []byte) (sps *hevc.SPS) {
-	libCall("hevc.ParseSPSNALUnit", "hevc", u, nil, func() {
+	sc := &setupCall{Op: "hevc.ParseSPSNALUnit", Codec: "hevc", In: u}
+	libCall(sc, true, nil, func() {
 		if v, err := hevc.ParseSPSNALUnit(u); err == nil {
 			sps = v
 		}
 	})
+	if sps != nil {
+		psOrigins[sps] = &psOrigin{b: u}
+	}
 	return sps
 }
 
 func setupHEVCPPS(u []byte, sm map[uint32]*hevc.SPS) (pps *hevc.PPS) {
-	libCall("hevc.ParsePPSNALUnit", "hevc", u, nil, func() {
+	sc := &setupCall{Op: "hevc.ParsePPSNALUnit", Codec: "hevc", In: u}
+	var ok bool
+	sc.SPS, ok = describeHEVCSPS(sm)
+	libCall(sc, ok, nil, func() {
 		if v, err := hevc.ParsePPSNALUnit(u, sm); err == nil {
 			pps = v
 		}
 	})
+	if pps != nil && ok {
+		psOrigins[pps] = &psOrigin{b: u, sps: sc.SPS}
+	}
 	return pps
 }
 
 func setupAVCSlice(u []byte, base [][]byte, sm map[uint32]*avc.SPS, pm map[uint32]*avc.PPS) (sh *avc.SliceHeader) {
-	libCall("avc.ParseSliceHeader", "avc", u, base, func() {
+	sc := &setupCall{Op: "avc.ParseSliceHeader", Codec: "avc", In: u}
+	var ok1, ok2 bool
+	sc.SPS, ok1 = describeAVCSPS(sm)
+	sc.PPS, ok2 = describeAVCPPS(pm)
+	libCall(sc, ok1 && ok2, base, func() {
 		if v, err := avc.ParseSliceHeader(u, sm, pm); err == nil {
 			sh = v
 		}
@@ -130,7 +536,11 @@ func setupAVCSlice(u []byte, base [][]byte, sm map[uint32]*avc.SPS, pm map[uint3
 }
 
 func setupHEVCSlice(u []byte, base [][]byte, sm map[uint32]*hevc.SPS, pm map[uint32]*hevc.PPS) (sh *hevc.SliceHeader) {
-	libCall("hevc.ParseSliceHeader", "hevc", u, base, func() {
+	sc := &setupCall{Op: "hevc.ParseSliceHeader", Codec: "hevc", In: u}
+	var ok1, ok2 bool
+	sc.SPS, ok1 = describeHEVCSPS(sm)
+	sc.PPS, ok2 = describeHEVCPPS(pm)
+	libCall(sc, ok1 && ok2, base, func() {
 		if v, err := hevc.ParseSliceHeader(u, sm, pm); err == nil {
 			sh = v
 		}
